@@ -80,12 +80,31 @@ def line_attrs_from_working_log(initial, checkpoints):
 def snapshot_before_commit(repo):
     """Flush pending human edits into the working log and read it."""
     repo.ai("checkpoint")
-    return {"initial": repo.initial(), "checkpoints": repo.checkpoints(), "base": repo.head()}
+    base = repo.head()
+    initial = repo.initial()
+    # INITIAL records the content its line numbers refer to (file_blobs). Where that content is not
+    # the file's current content the binary carries the numbers over through a diff, which this
+    # line-level reduction cannot reproduce: such files are left out of the comparison.
+    moved = set()
+    import os as _os
+    for p, sha in ((initial or {}).get("file_blobs") or {}).items():
+        try:
+            snap = open(_os.path.join(repo.ai_dir(), "working_logs", base or "initial", "blobs", sha), encoding="utf-8").read()
+            cur = repo.read(p)
+        except Exception:
+            moved.add(p); continue
+        if snap != cur:
+            moved.add(p)
+    return {"initial": initial, "checkpoints": repo.checkpoints(), "base": base, "initial_moved": sorted(moved)}
 
 
 def requests_after_commit(repo, snap, parent, sha):
     """Driver requests (one per attributed file) and the observed outcome per file."""
     attrs = line_attrs_from_working_log(snap["initial"], snap["checkpoints"])
+    have_entry = {e["file"] for cp in snap["checkpoints"] for e in cp.get("entries", [])}
+    for p in snap.get("initial_moved", []):
+        if p not in have_entry:
+            attrs.pop(p, None)
     committed = S.added_lines(repo, parent, sha) if parent else S.added_lines(repo, "4b825dc642cb6eb9a060e54bf8d69288fbee4904", sha)
     un_all, un_pure = workdir_added(repo, sha)
     note = repo.note(sha)
